@@ -6,6 +6,7 @@
   The ledger is FnTheorems.lean.
 -/
 import OttoVerif.C01.FnModel
+import OttoVerif.C01.CallTheorems
 namespace OttoVerif.C01.FnRefine
 open OttoVerif.C01
 set_option linter.unusedSimpArgs false
@@ -892,6 +893,13 @@ theorem defineOwnProperty_nonargs (σ : FnM.St) (a : Nat) (o : FnM.Obj) (x : Str
   | arguments ipn st => exact absurd hv (hna ipn st)
   | _ => simp only [bind_run, getSt_run, ho, hv]
 
+theorem mappedAssign_nonargs (σ : Fn.St) (k : Fn.OKind) (p : String) (v : Fn.V) (h : ∀ m e, k ≠ .args m e) :
+    Fn.mappedAssign σ k p v = σ := by
+  unfold Fn.mappedAssign
+  cases k with
+  | args m e => exact absurd rfl (h m e)
+  | _ => rfl
+
 /-- **[[Put]]** (§8.12.5 with §8.12.4) on an object that is not an arguments object -/
 theorem putProp_spec (σ : FnM.St) (a : Nat) (x : String) (v : Fn.V) (hv : Visible σ x) (hw : WritableWF σ)
     (hd : ProtoDesc σ) (hna : ∀ o, σ.obj? a = some o → ∀ ipn st, o.val ≠ .arguments ipn st) :
@@ -921,18 +929,8 @@ theorem putProp_spec (σ : FnM.St) (a : Nat) (x : String) (v : Fn.V) (hv : Visib
       have h2 : canPutP σ a x = (true, Fn.lookupA x o.props) := by
         rw [← hc, ← hown, ← canPutP_snd]
       rw [h2]
-      have hk : (match (absObj o).kind with
-          | Fn.OKind.args map env =>
-            (match Fn.idx? x with
-             | some i => (match map[i]? with
-               | some (some name) => Fn.envAssign (absSt σ) ((absSt σ).envs.length + 1) env name v
-               | _ => absSt σ)
-             | none => absSt σ)
-          | _ => absSt σ) = absSt σ := by
-        cases hkk : (absObj o).kind with
-        | args m e => exact absurd hkk (hkind m e)
-        | _ => rfl
-      simp only [Bool.not_true, Bool.false_eq_true, if_false, absObj_lookup o x hh]
+      have hk := mappedAssign_nonargs (absSt σ) (absObj o).kind x v hkind
+      simp only [Bool.not_true, Bool.false_eq_true, if_false, hk, absObj_lookup o x hh]
       cases hl : Fn.lookupA x o.props with
       | some p0 =>
         have hp0w : p0.w = true := by
@@ -1145,8 +1143,544 @@ theorem putValue_unresolvable_spec (σ : FnM.St) (x : String) (v : Fn.V) (hx : x
     intro m e hk
     cases hval : g.val <;> simp [absObj, absKind, hval] at hk
     exact hna _ _ hval
-  cases hkk : (absObj g).kind with
-  | args m e => exact absurd hkk (hk m e)
-  | _ => simp [hkk, FnM.p111, FnM.gObj, Fn.gObj]
+  rw [mappedAssign_nonargs (absSt σ) (absObj g).kind x v hk]
+  simp [FnM.p111, FnM.gObj, Fn.gObj]
+
+/-! ## [[Delete]]; [[Put]] and [[Delete]] through the arguments object's parameter map -/
+
+theorem removeA_map {β γ : Type} (f : β → γ) (x : String) :
+    ∀ l : List (String × β), (Fn.removeA x l).map (fun p => (p.1, f p.2)) = Fn.removeA x (l.map fun p => (p.1, f p.2)) := by
+  intro l
+  induction l with
+  | nil => rfl
+  | cons p r ih =>
+    obtain ⟨k, w⟩ := p
+    simp only [Fn.removeA, List.map_cons]
+    split <;> simp [ih]
+
+theorem removeA_filter {β : Type} (q : String → Bool) (x : String) (hx : q x = true) :
+    ∀ l : List (String × β), (Fn.removeA x l).filter (fun p => q p.1) = Fn.removeA x (l.filter fun p => q p.1) := by
+  intro l
+  induction l with
+  | nil => rfl
+  | cons p r ih =>
+    obtain ⟨k, w⟩ := p
+    by_cases hk : k = x
+    · subst hk; simp [Fn.removeA, hx]
+    · by_cases hq : q k = true
+      · simp [Fn.removeA, hk, hq, ih]
+      · simp [Fn.removeA, hk, hq, ih]
+
+theorem removeA_names {β : Type} (q : β → Bool) (x : String) :
+    ∀ l : List (String × β), (l.map (·.1)).Nodup →
+      ((Fn.removeA x l).filter fun p => q p.2).map (·.1) = ((l.filter fun p => q p.2).map (·.1)).filter (· != x) := by
+  intro l
+  induction l with
+  | nil => intro _; rfl
+  | cons p r ih =>
+    intro hn
+    obtain ⟨k, w⟩ := p
+    simp only [List.map_cons, List.nodup_cons] at hn
+    by_cases hk : k = x
+    · subst hk
+      simp only [Fn.removeA, if_true, List.filter_cons]
+      have hnot : ∀ l' : List (String × β), (∀ e ∈ l', e.1 ≠ k) → (l'.map (·.1)).filter (· != k) = l'.map (·.1) := by
+        intro l' h
+        induction l' with
+        | nil => rfl
+        | cons e t iht =>
+          have := h e (List.mem_cons_self)
+          simp only [List.map_cons, List.filter_cons, bne_iff_ne, ne_eq, this, not_false_eq_true, if_true]
+          rw [iht (fun e' he' => h e' (List.mem_cons_of_mem _ he'))]
+      have hr : ∀ e ∈ r.filter (fun p => q p.2), e.1 ≠ k := by
+        intro e he hek
+        have := List.mem_map_of_mem (f := (·.1)) ((List.mem_filter.1 he).1)
+        rw [hek] at this
+        exact hn.1 this
+      cases q w <;> simp [hnot _ hr]
+    · simp only [Fn.removeA, hk, if_false, List.filter_cons]
+      cases q w <;> simp [ih hn.2, hk]
+
+/-- the own property names of every object are distinct (writeProperty appends only new names) -/
+def PropsNodup (σ : FnM.St) : Prop := ∀ a o, σ.obj? a = some o → (o.props.map (·.1)).Nodup
+
+theorem filter_names_nodup {β : Type} (q : String × β → Bool) (l : List (String × β)) (h : (l.map (·.1)).Nodup) :
+    ((l.filter q).map (·.1)).Nodup := by
+  induction l with
+  | nil => simp
+  | cons p r ih =>
+    simp only [List.map_cons, List.nodup_cons] at h
+    simp only [List.filter_cons]
+    split
+    · simp only [List.map_cons, List.nodup_cons]
+      refine ⟨?_, ih h.2⟩
+      intro hm
+      obtain ⟨e, he, hee⟩ := List.mem_map.1 hm
+      exact h.1 (List.mem_map.2 ⟨e, (List.mem_filter.1 he).1, hee⟩)
+    · exact ih h.2
+
+theorem absObj_remove (o : FnM.Obj) (x : String) (val' : FnM.OVal) (hh : hidden o.val x = false)
+    (hsame : ∀ k, hidden val' k = hidden o.val k) (hn : (o.props.map (·.1)).Nodup) :
+    absObj { o with props := Fn.removeA x o.props, val := val' } =
+      { absObj o with props := Fn.removeA x (absObj o).props, kind := absKind val',
+                      dontEnum := (absObj o).dontEnum.filter (· != x) } := by
+  have hq : (fun k => !hidden o.val k) x = true := by simp [hh]
+  have hfun : (fun p : String × FnM.Pty => !hidden val' p.1) = (fun p : String × FnM.Pty => !hidden o.val p.1) := by
+    funext p; rw [hsame]
+  simp only [absObj, absProps, hfun]
+  congr 1
+  · rw [removeA_filter (fun k => !hidden o.val k) x hq, removeA_map (fun p : FnM.Pty => p.value)]
+  · rw [removeA_filter (fun k => !hidden o.val k) x hq]
+    exact removeA_names (fun p : FnM.Pty => !p.e) x _ (filter_names_nodup _ _ hn)
+
+theorem ownP_c (σ : FnM.St) (a : Nat) (o : FnM.Obj) (x : String) (ho : σ.obj? a = some o)
+    (hs : ∀ s, o.val ≠ .string s) :
+    (ownP σ a x).map (·.c) = (Fn.lookupA x o.props).map (·.c) := by
+  unfold ownP
+  simp only [ho]
+  cases hv : o.val with
+  | string s => exact absurd hv (hs s)
+  | arguments ipn stash => cases Fn.lookupA x o.props <;> cases mapGetP σ o x <;> rfl
+  | _ => rfl
+
+theorem setNth_self {β : Type} : ∀ (l : List β) (a : Nat) (b : β), l[a]? = some b → Fn.setNth l a b = l := by
+  intro l
+  induction l with
+  | nil => intro a b h; rfl
+  | cons h t ih =>
+    intro a b hb
+    cases a with
+    | zero => simp at hb; subst hb; rfl
+    | succ a => simp at hb; simp [Fn.setNth, ih a b hb]
+
+theorem setNth_ge {β : Type} : ∀ (l : List β) (a : Nat) (b : β), l[a]? = none → Fn.setNth l a b = l := by
+  intro l
+  induction l with
+  | nil => intro a b h; rfl
+  | cons h t ih =>
+    intro a b hb
+    cases a with
+    | zero => simp at hb
+    | succ a => simp at hb; simp [Fn.setNth, ih a b (by simpa using hb)]
+
+theorem lookupA_none_notmem {β : Type} (x : String) : ∀ (l : List (String × β)), Fn.lookupA x l = none → x ∉ l.map (·.1) := by
+  intro l
+  induction l with
+  | nil => intro _; simp
+  | cons p r ih =>
+    intro h
+    obtain ⟨k, w⟩ := p
+    by_cases hk : k = x
+    · subst hk; simp [Fn.lookupA] at h
+    · simp only [Fn.lookupA, hk, if_false] at h
+      simp only [List.map_cons, List.mem_cons, not_or]
+      exact ⟨fun e => hk e.symm, ih h⟩
+
+theorem removeA_none {β : Type} (x : String) : ∀ (l : List (String × β)), Fn.lookupA x l = none → Fn.removeA x l = l := by
+  intro l
+  induction l with
+  | nil => intro _; rfl
+  | cons p r ih =>
+    intro h
+    obtain ⟨k, w⟩ := p
+    by_cases hk : k = x
+    · subst hk; simp [Fn.lookupA] at h
+    · simp only [Fn.lookupA, hk, if_false] at h
+      simp [Fn.removeA, hk, ih h]
+
+theorem filter_ne_notmem (x : String) : ∀ (l : List String), x ∉ l → l.filter (· != x) = l := by
+  intro l
+  induction l with
+  | nil => intro _; rfl
+  | cons h t ih =>
+    intro hm
+    simp only [List.mem_cons, not_or] at hm
+    have : (h != x) = true := by simp [bne_iff_ne]; exact fun e => hm.1 e.symm
+    simp [List.filter_cons, this, ih hm.2]
+
+theorem absSt_setObj_self (σ : FnM.St) (a : Nat) (o : FnM.Obj) (ho : σ.obj? a = some o) :
+    (absSt σ).setObj a (absObj o) = absSt σ := by
+  simp only [Fn.St.setObj, absSt]
+  congr 1
+  apply setNth_self
+  simp only [FnM.St.obj?] at ho
+  simp [ho]
+
+/-- the Bool a Go method returns, as the JavaScript value the operator yields -/
+def boolR : FnM.R Bool → FnM.R Fn.V
+  | .ok b σ => .ok (.bool b) σ
+  | .throw t σ => .throw t σ
+  | .fuel => .fuel
+
+theorem unmapKind_nonargs (k : Fn.OKind) (p : String) (h : ∀ m e, k ≠ .args m e) : Fn.unmapKind k p = k := by
+  unfold Fn.unmapKind
+  cases k with
+  | args m e => exact absurd rfl (h m e)
+  | _ => rfl
+
+theorem unmapIndex_nonargs (v : FnM.OVal) (x : String) (h : ∀ ipn st, v ≠ .arguments ipn st) : FnM.unmapIndex v x = v := by
+  unfold FnM.unmapIndex
+  cases v with
+  | arguments ipn st => exact absurd rfl (h ipn st)
+  | _ => rfl
+
+/-- **[[Delete]]** (§8.12.7) on an object that is not an arguments object: non-configurable properties stay
+    (result false), others go, and the abstraction of the new state is ES5's new state -/
+theorem delProp_spec (σ : FnM.St) (a : Nat) (x : String) (hv : Visible σ x) (hn : PropsNodup σ)
+    (hna : ∀ o, σ.obj? a = some o → ∀ ipn st, o.val ≠ .arguments ipn st)
+    (hc : ∀ o p, σ.obj? a = some o → Fn.lookupA x o.props = some p → p.c = !Fn.fixedProp (absKind o.val) x) :
+    absR (boolR (FnM.objDelete a x false σ)) = Fn.delProp (absSt σ) (.ref a) x := by
+  unfold FnM.objDelete Fn.delProp
+  simp only [bind_run, getOwnProperty_run, absSt_obj]
+  cases ho : σ.obj? a with
+  | none => simp [ownP, ho, absR, boolR]
+  | some o =>
+    have ⟨hh, hs⟩ := hv a o ho
+    have hm : mapGetP σ o x = none := mapGetP_none_of_not_args σ o x (hna o ho)
+    have hown : ownP σ a x = Fn.lookupA x o.props := ownP_of_unmapped σ a o x ho hs hm
+    have hkind : ∀ m e, (absObj o).kind ≠ .args m e := by
+      intro m e hk
+      cases hval : o.val <;> simp [absObj, absKind, hval] at hk
+      exact hna o ho _ _ hval
+    have hkk : (absObj o).kind = absKind o.val := rfl
+    simp only [Option.map_some, hown, unmapKind_nonargs _ x hkind, absObj_lookup o x hh]
+    cases hl : Fn.lookupA x o.props with
+    | none =>
+      simp only [pure_run, absR, boolR, Option.map_none, Option.isSome_none, Bool.and_false, Bool.false_eq_true, if_false]
+      have hl' : Fn.lookupA x (absObj o).props = none := by rw [absObj_lookup o x hh, hl]; rfl
+      rw [removeA_none x _ hl']
+      have hne : x ∉ (absObj o).dontEnum := by
+        intro hmem
+        simp only [absObj] at hmem
+        have h1 := lookupA_none_notmem x (absProps o) (by
+          simp only [absProps]
+          rw [lookupA_filter (fun k => !hidden o.val k) x (by simp [hh])]; exact hl)
+        obtain ⟨e, he, hee⟩ := List.mem_map.1 hmem
+        exact h1 (List.mem_map.2 ⟨e, (List.mem_filter.1 he).1, hee⟩)
+      rw [filter_ne_notmem x _ hne]
+      have : ({ props := (absObj o).props, proto := (absObj o).proto, kind := (absObj o).kind, dontEnum := (absObj o).dontEnum } : Fn.Obj) = absObj o := rfl
+      rw [this, absSt_setObj_self σ a o ho]
+    | some p =>
+      have hpc := hc o p ho hl
+      simp only [Option.map_some, Option.isSome_some, Bool.and_true, hkk]
+      cases hcc : p.c with
+      | false =>
+        have hf : Fn.fixedProp (absKind o.val) x = true := by rw [hcc] at hpc; simpa using hpc.symm
+        simp [hf, FnM.typeErrorResult, absR, boolR]
+      | true =>
+        have hf : Fn.fixedProp (absKind o.val) x = false := by rw [hcc] at hpc; simpa using hpc.symm
+        simp only [hf, Bool.false_eq_true, if_false, if_true, bind_run, getSt_run, ho,
+          unmapIndex_nonargs o.val x (hna o ho), setObj_run, pure_run, absR, boolR, absSt_setObj]
+        rw [absObj_remove o x o.val hh (fun _ => rfl) (hn a o ho)]
+
+/-- what `dclSetBinding` does to a mutable binding -/
+theorem dclSetBinding_mutable (σ : FnM.St) (st : Nat) (pn : String) (v : Fn.V) (p : FnM.DclProp)
+    (hl : Fn.lookupA pn (FnM.dclProps σ st) = some p) (hm : p.mutable_ = true) :
+    ∃ s', FnM.dclSetBinding st pn v false σ = .ok () { σ with stashes := Fn.setNth σ.stashes st s' } ∧
+      absStash s' = { (absSt σ).envs[st]?.getD { vars := [], outer := none } with
+                      vars := Fn.updateA pn v ((absSt σ).envs[st]?.getD { vars := [], outer := none }).vars } := by
+  rcases dclProps_of_stash σ st pn p hl with ⟨outer, hs⟩ | ⟨outer, ar, hs⟩
+  · refine ⟨.dcl outer (Fn.updateA pn { p with value := v } (FnM.dclProps σ st)), ?_, ?_⟩
+    · simp only [FnM.dclSetBinding, bind_run, getSt_run, hl, hm, if_true, FnM.setDclProps, hs, setStash_run]
+    · simp only [absSt_env, hs, Option.map_some, Option.getD_some, absStash]
+      exact absDcl_update _ outer pn v p hl
+  · refine ⟨.fn outer (Fn.updateA pn { p with value := v } (FnM.dclProps σ st)) ar, ?_, ?_⟩
+    · simp only [FnM.dclSetBinding, bind_run, getSt_run, hl, hm, if_true, FnM.setDclProps, hs, setStash_run]
+    · simp only [absSt_env, hs, Option.map_some, Option.getD_some, absStash]
+      exact absDcl_update _ outer pn v p hl
+
+/-- what FnSpec's envAssign does to a mutable binding of a declarative record -/
+theorem envAssign_bound (σ : FnM.St) (st : Nat) (pn : String) (v : Fn.V) (p : FnM.DclProp) (hst : st ≠ 0)
+    (hn : StashNodup σ) (hl : Fn.lookupA pn (FnM.dclProps σ st) = some p) (hm : p.mutable_ = true) (n : Nat) :
+    Fn.envAssign (absSt σ) (n+1) st pn v =
+      (absSt σ).setEnv st { (absSt σ).envs[st]?.getD { vars := [], outer := none } with
+        vars := Fn.updateA pn v ((absSt σ).envs[st]?.getD { vars := [], outer := none }).vars } := by
+  have hnj := hn st
+  rcases dclProps_of_stash σ st pn p hl with ⟨outer, hs⟩ | ⟨outer, ar, hs⟩
+  · have hv : Fn.lookupA pn (absDcl (FnM.dclProps σ st) outer).vars = some p.value := by
+      simp only [absDcl]; rw [lookupA_map (fun q : FnM.DclProp => q.value)]; simp [hl]
+    have hi := immut_contains _ outer pn p hnj hl
+    simp only [Fn.envAssign, hst, if_false, absSt_env, hs, Option.map_some, absStash, hv, hi, hm, Bool.not_true,
+      Bool.false_eq_true, Option.getD_some]
+  · have hv : Fn.lookupA pn (absDcl (FnM.dclProps σ st) outer).vars = some p.value := by
+      simp only [absDcl]; rw [lookupA_map (fun q : FnM.DclProp => q.value)]; simp [hl]
+    have hi := immut_contains _ outer pn p hnj hl
+    simp only [Fn.envAssign, hst, if_false, absSt_env, hs, Option.map_some, absStash, hv, hi, hm, Bool.not_true,
+      Bool.false_eq_true, Option.getD_some]
+
+/-- **[[Put]] on a mapped index of an arguments object** (§10.6 [[DefineOwnProperty]] 5.b.i via §8.12.5): the
+    own property and the parameter it is joined to are both written -/
+theorem putProp_mapped_spec (σ : FnM.St) (a : Nat) (x : String) (v : Fn.V) (o : FnM.Obj) (ipn : List String) (st i : Nat)
+    (pn : String) (p0 : FnM.Pty) (p : FnM.DclProp)
+    (ho : σ.obj? a = some o) (hval : o.val = .arguments ipn st) (hidx : Fn.idx? x = some i)
+    (hpn : ipn[i]? = some pn) (hne : pn ≠ "") (hst : st ≠ 0)
+    (hbind : Fn.lookupA pn (FnM.dclProps σ st) = some p) (hmut : p.mutable_ = true) (hn : StashNodup σ)
+    (hown : Fn.lookupA x o.props = some p0) (hw : p0.w = true) :
+    absR (FnM.objPut a x v false σ) = Fn.putProp (absSt σ) (.ref a) x v := by
+  obtain ⟨cls, proto, props, val⟩ := o
+  simp only at hval hown
+  subst hval
+  generalize hoo : ({ cls := cls, proto := proto, props := props, val := FnM.OVal.arguments ipn st } : FnM.Obj) = o at ho
+  have hov : o.val = .arguments ipn st := by rw [← hoo]
+  have hop : o.props = props := by rw [← hoo]
+  have hh : hidden o.val x = false := by simp [hov, hidden]
+  have hown' : Fn.lookupA x o.props = some p0 := by rw [hop]; exact hown
+  have hmap : mapGetP σ o x = some (dclGetP σ st pn) := by simp [mapGetP, hov, FnM.arrayIndex, hidx, hpn, hne]
+  have hownP : ownP σ a x = some { p0 with value := dclGetP σ st pn } := by simp [ownP, ho, hov, hown', hmap]
+  have hcpP : canPutP σ a x = (true, some { p0 with value := dclGetP σ st pn }) := by simp [canPutP, hownP, hw]
+  have hcan : Fn.canPut (absSt σ) (σ.heap.length + 1) a x = true := by
+    simp only [Fn.canPut, absSt_obj, ho, Option.map_some]
+    rw [absObj_lookup o x hh, hown']
+    simp [absObj, absKind, hov, Fn.isFnKind]
+  have hma : Fn.mappedAssign (absSt σ) (absObj o).kind x v = Fn.envAssign (absSt σ) ((absSt σ).envs.length + 1) st pn v := by
+    simp [Fn.mappedAssign, absObj, absKind, hov, hidx, hpn, optName, hne]
+  -- the model: own property first, then the stash
+  let σh : FnM.St := { σ with heap := Fn.setNth σ.heap a { o with props := Fn.updateA x { p0 with value := v } o.props } }
+  have hb' : Fn.lookupA pn (FnM.dclProps σh st) = some p := hbind
+  obtain ⟨s', hs', habs'⟩ := dclSetBinding_mutable σh st pn v p hb' hmut
+  have hdef : FnM.defineOwnProperty a x { p0 with value := v } false σ =
+      .ok true { σh with stashes := Fn.setNth σh.stashes st s' } := by
+    unfold FnM.defineOwnProperty
+    simp only [bind_run, getSt_run, ho, argumentsMapGet_run, hmap]
+    rw [← hoo]
+    simp only [argumentsMapGet_run, bind_run]
+    rw [hoo, hmap]
+    simp only [bind_run]
+    rw [odop_update σ a o x { p0 with value := v } p0 false ho hown' rfl rfl (Or.inr hw)]
+    have hamp : FnM.argumentsMapPut o x v = FnM.dclSetBinding st pn v false := by
+      unfold FnM.argumentsMapPut
+      simp [hov, FnM.arrayIndex, hidx, hpn]
+    have hs'' := hs'
+    simp only [σh] at hs''
+    simp only [Bool.not_true, Bool.false_eq_true, if_false, bind_run, hamp, hs'', pure_run]
+    rfl
+  unfold FnM.objPut Fn.putProp
+  simp only [bind_run, canPutDetails_run, hcpP, absSt_obj, ho, Option.map_some, absSt_heap_length, hcan, Bool.not_true,
+    Bool.false_eq_true, if_false, hma, absObj_lookup o x hh, hown']
+  have hd2 : ({ value := v, w := p0.w, e := p0.e, c := p0.c } : FnM.Pty) = { p0 with value := v } := rfl
+  simp only [hd2, hdef, pure_run, absR]
+  rw [envAssign_bound σ st pn v p hst hn hbind hmut]
+  simp only [absSt, Fn.St.setEnv, Fn.St.setObj, setNth_map, σh]
+  rw [absObj_update o x { p0 with value := v } p0 hh hown' rfl, habs']
+  rfl
+
+theorem optName_empty : optName "" = none := rfl
+
+theorem absKind_unmap (v : FnM.OVal) (x : String) : absKind (FnM.unmapIndex v x) = Fn.unmapKind (absKind v) x := by
+  cases v with
+  | arguments ipn st =>
+    simp only [FnM.unmapIndex, Fn.unmapKind, absKind, FnM.arrayIndex]
+    cases hidx : Fn.idx? x with
+    | none => rfl
+    | some i =>
+      simp only []
+      cases hpn : ipn[i]? with
+      | none =>
+        simp only [absKind]
+        rw [setNth_ge (ipn.map optName) i none (by simp [hpn])]
+      | some pn =>
+        by_cases hne : pn = ""
+        · subst hne
+          simp only [if_true, absKind]
+          rw [setNth_self (ipn.map optName) i none (by simp [hpn, optName_empty])]
+        · simp only [hne, if_false, absKind, setNth_map, optName_empty]
+  | _ => rfl
+
+theorem hidden_unmap (v : FnM.OVal) (x k : String) : hidden (FnM.unmapIndex v x) k = hidden v k := by
+  cases v with
+  | arguments ipn st =>
+    simp only [FnM.unmapIndex]
+    cases FnM.arrayIndex x with
+    | none => rfl
+    | some i =>
+      simp only []
+      cases ipn[i]? with
+      | none => rfl
+      | some pn => by_cases h : pn = "" <;> simp [h, hidden]
+  | _ => rfl
+
+/-- is `x` an index of this arguments object that is still joined to a parameter? -/
+def isMapped (v : FnM.OVal) (x : String) : Bool :=
+  match v with
+  | .arguments ipn _ => (match FnM.arrayIndex x with
+    | some i => (match ipn[i]? with | some pn => pn != "" | none => false)
+    | none => false)
+  | _ => false
+
+theorem unmapIndex_unmapped (v : FnM.OVal) (x : String) (h : isMapped v x = false) : FnM.unmapIndex v x = v := by
+  cases v with
+  | arguments ipn st =>
+    simp only [isMapped] at h
+    simp only [FnM.unmapIndex]
+    cases hi : FnM.arrayIndex x with
+    | none => rfl
+    | some i =>
+      rw [hi] at h
+      simp only [] at h ⊢
+      cases hp : ipn[i]? with
+      | none => rfl
+      | some pn =>
+        rw [hp] at h
+        simp only [bne_eq_false_iff_eq] at h
+        simp [h]
+  | _ => rfl
+
+/-- **[[Delete]]** (§8.12.7; §10.6 [[Delete]] of an arguments object: the index is un-mapped) on any object that
+    is not a String wrapper.  `hc`: the configurable bit of the property is the one ES5 gives it;
+    `hmo`: an index still joined to a parameter exists as an own property (so it was never deleted). -/
+theorem delete_spec (σ : FnM.St) (a : Nat) (x : String) (hv : Visible σ x) (hn : PropsNodup σ)
+    (hc : ∀ o p, σ.obj? a = some o → Fn.lookupA x o.props = some p → p.c = !Fn.fixedProp (absKind o.val) x)
+    (hmo : ∀ o, σ.obj? a = some o → isMapped o.val x = true → (Fn.lookupA x o.props).isSome = true) :
+    absR (boolR (FnM.objDelete a x false σ)) = Fn.delProp (absSt σ) (.ref a) x := by
+  unfold FnM.objDelete Fn.delProp
+  simp only [bind_run, getOwnProperty_run, absSt_obj]
+  cases ho : σ.obj? a with
+  | none => simp [ownP, ho, absR, boolR]
+  | some o =>
+    have ⟨hh, hs⟩ := hv a o ho
+    have h1 := ownP_isSome σ a o x ho hs
+    have h2 := ownP_c σ a o x ho hs
+    have hkk : (absObj o).kind = absKind o.val := rfl
+    simp only [Option.map_some, absObj_lookup o x hh, hkk]
+    cases hl : Fn.lookupA x o.props with
+    | none =>
+      have hown : ownP σ a x = none := by
+        rw [hl] at h1; cases h : ownP σ a x with
+        | none => rfl
+        | some q => rw [h] at h1; simp at h1
+      have hnm : isMapped o.val x = false := by
+        cases hm : isMapped o.val x with
+        | false => rfl
+        | true => have := hmo o ho hm; rw [hl] at this; simp at this
+      have hum : Fn.unmapKind (absKind o.val) x = absKind o.val := by
+        rw [← absKind_unmap, unmapIndex_unmapped o.val x hnm]
+      simp only [hown, pure_run, absR, boolR, Option.map_none, Option.isSome_none, Bool.and_false, Bool.false_eq_true, if_false, hum]
+      have hl' : Fn.lookupA x (absObj o).props = none := by rw [absObj_lookup o x hh, hl]; rfl
+      rw [removeA_none x _ hl']
+      have hne : x ∉ (absObj o).dontEnum := by
+        intro hmem
+        simp only [absObj] at hmem
+        have h1 := lookupA_none_notmem x (absProps o) (by
+          simp only [absProps]
+          rw [lookupA_filter (fun k => !hidden o.val k) x (by simp [hh])]; exact hl)
+        obtain ⟨e, he, hee⟩ := List.mem_map.1 hmem
+        exact h1 (List.mem_map.2 ⟨e, (List.mem_filter.1 he).1, hee⟩)
+      rw [filter_ne_notmem x _ hne]
+      have : ({ props := (absObj o).props, proto := (absObj o).proto, kind := absKind o.val, dontEnum := (absObj o).dontEnum } : Fn.Obj) = absObj o := rfl
+      rw [this, absSt_setObj_self σ a o ho]
+    | some p =>
+      have hpc := hc o p ho hl
+      rw [hl] at h1 h2
+      cases hown : ownP σ a x with
+      | none => rw [hown] at h1; simp at h1
+      | some q =>
+        rw [hown] at h2
+        simp only [Option.map_some, Option.some.injEq] at h2
+        simp only [Option.map_some, Option.isSome_some, Bool.and_true, h2]
+        cases hcc : p.c with
+        | false =>
+          have hf : Fn.fixedProp (absKind o.val) x = true := by rw [hcc] at hpc; simpa using hpc.symm
+          simp [hf, FnM.typeErrorResult, absR, boolR]
+        | true =>
+          have hf : Fn.fixedProp (absKind o.val) x = false := by rw [hcc] at hpc; simpa using hpc.symm
+          simp only [hf, Bool.false_eq_true, if_false, if_true, bind_run, getSt_run, ho, setObj_run, pure_run, absR, boolR,
+            absSt_setObj]
+          rw [absObj_remove o x (FnM.unmapIndex o.val x) hh (hidden_unmap o.val x) (hn a o ho), absKind_unmap]
+
+/-! ## entering function code: the parameter map of the arguments object -/
+
+/-- FnSpec.mkArguments' parameter map (§10.6 step 11), as a function of the parameter list and the number of arguments -/
+def specArgMap (params : List String) (nargs : Nat) : List (Option String) :=
+  (List.range nargs).map fun i =>
+    match params[i]? with
+    | some name => if ((params.take nargs).drop (i+1)).contains name then none else some name
+    | none => none
+
+theorem noLaterDup_getElem? : ∀ (q : List String) (i : Nat),
+    (Call.noLaterDup q)[i]? = (q[i]?).map fun name => if (q.drop (i+1)).contains name then none else some name := by
+  intro q
+  induction q with
+  | nil => intro i; simp [Call.noLaterDup]
+  | cons p ps ih =>
+    intro i
+    cases i with
+    | zero => simp [Call.noLaterDup]
+    | succ i => simp [Call.noLaterDup, ih i]
+
+theorem noLaterDup_length : ∀ q : List String, (Call.noLaterDup q).length = q.length := by
+  intro q; induction q with
+  | nil => rfl
+  | cons p ps ih => simp [Call.noLaterDup, ih]
+
+theorem specArgMap_eq (params : List String) (nargs : Nat) : specArgMap params nargs = Call.specMap params nargs := by
+  unfold Call.specMap
+  rw [CallThm.specMapped_noLaterDup]
+  apply List.ext_getElem?
+  intro i
+  simp only [specArgMap, Call.padNone, List.getElem?_map, List.getElem?_append, noLaterDup_length, List.length_take]
+  by_cases hi : i < nargs
+  · simp only [List.getElem?_range hi, Option.map_some]
+    by_cases hp : i < params.length
+    · have hm : i < min nargs params.length := by omega
+      have hg : params[i]? = some params[i] := List.getElem?_eq_getElem hp
+      simp only [hm, if_true, noLaterDup_getElem?, List.getElem?_take, hi, if_true, hg, Option.map_some]
+    · have hm : ¬ i < min nargs params.length := by omega
+      have hn : params[i]? = none := by simp; omega
+      simp only [hm, if_false, hn, List.getElem?_replicate]
+      split
+      · rfl
+      · omega
+  · have hr : (List.range nargs)[i]? = none := by simp; omega
+    have hm : ¬ i < min nargs params.length := by omega
+    simp only [hr, Option.map_none, hm, if_false, List.getElem?_replicate]
+    split
+    · omega
+    · rfl
+
+theorem specArgMap_entries (params : List String) (nargs : Nat) :
+    ∀ o ∈ specArgMap params nargs, ∀ s, o = some s → s ∈ params := by
+  intro o ho s hs
+  simp only [specArgMap, List.mem_map, List.mem_range] at ho
+  obtain ⟨i, _, hi⟩ := ho
+  subst hs
+  cases hp : params[i]? with
+  | none => rw [hp] at hi; simp at hi
+  | some name =>
+    rw [hp] at hi
+    simp only at hi
+    split at hi
+    · simp at hi
+    · simp only [Option.some.injEq] at hi
+      subst hi
+      exact List.mem_of_getElem? hp
+
+/-- **the parameter map of the arguments object** on the real data: the `indexOfParameterName` list otto builds
+    (cmpl_evaluate.go:28–50) abstracts to the map §10.6 step 11 builds (FnSpec.mkArguments), for every parameter
+    list – duplicates, fewer and more arguments than parameters included.  (Lifts CallThm.arguments_map.) -/
+theorem arguments_map_real (params : List String) (nargs : Nat) (hne : "" ∉ params) :
+    (FnM.indexOfParameterNames params nargs).map optName = specArgMap params nargs := by
+  unfold FnM.indexOfParameterNames
+  rw [CallThm.arguments_map, ← specArgMap_eq, List.map_map]
+  have key : ∀ l : List (Option String), (∀ o ∈ l, o ≠ some "") → l.map (optName ∘ fun o => o.getD "") = l := by
+    intro l hl
+    induction l with
+    | nil => rfl
+    | cons o r ih =>
+      have ho := hl o List.mem_cons_self
+      have hr := ih (fun o' h' => hl o' (List.mem_cons_of_mem _ h'))
+      simp only [List.map_cons, hr, Function.comp]
+      congr 1
+      cases o with
+      | none => rfl
+      | some s =>
+        have : s ≠ "" := fun h => ho (by rw [h])
+        simp [optName, this]
+  apply key
+  intro o ho hs
+  exact hne (specArgMap_entries params nargs o ho "" hs)
+
+example : (FnM.indexOfParameterNames ["a", "a"] 1).map optName = [some "a"] ∧
+    (FnM.indexOfParameterNames ["a", "a"] 2).map optName = [none, some "a"] ∧
+    specArgMap ["a", "b", "a"] 4 = [none, some "b", some "a", none] := by decide
 
 end OttoVerif.C01.FnRefine
